@@ -27,7 +27,11 @@ EXTENDS Integers, Sequences, FiniteSets, TLC, SequencesExt
 
 \* Repush = TRUE models the encoder as found: the container is pushed again (BINGET)
 \* between two batches; FALSE models the repaired encoder.
-CONSTANT Repush
+\* HostCycles: what the encoder does when a host object is reached again while its own
+\* arguments are still being pickled (a function that refers to itself through its globals):
+\* "diverge" models the encoder as found (unbounded recursion), "standin" the repaired
+\* pickler, which emits a stand-in for the object under construction.
+CONSTANTS Repush, HostCycles
 
 Atom(t, v) == [t |-> t, v |-> v]
 Ref(i) == [t |-> "node", id |-> i]
@@ -94,13 +98,22 @@ EncNode(h, id, st, batch) ==
                ELSE EncBatches(h, id, n.kids, s0, IF n.t = "dict" THEN 2 * batch ELSE batch, close, TRUE)
 
 EncItem(h, x, st, batch) ==
-    IF ~IsRef(x) THEN [st EXCEPT !.ops = Append(@, OpOfAtom(x))]
+    IF st.div THEN st
+    ELSE IF ~IsRef(x) THEN [st EXCEPT !.ops = Append(@, OpOfAtom(x))]
     ELSE IF x.id \in DOMAIN st.memo THEN [st EXCEPT !.ops = Append(@, [op |-> "BINGET", i |-> st.memo[x.id]])]
+    ELSE IF h.nodes[x.id].t = "host" /\ x.id \in st.active
+         THEN IF HostCycles = "standin"
+              THEN [st EXCEPT !.ops = @ \o << [op |-> "STR", v |-> "dawn"], [op |-> "STR", v |-> "Recursive"], [op |-> "STACK_GLOBAL"],
+                                               [op |-> "STR", v |-> h.nodes[x.id].name], [op |-> "TUPLE1"], [op |-> "NEWOBJ"] >>]
+              ELSE [st EXCEPT !.div = TRUE]
+    ELSE IF h.nodes[x.id].t = "host"
+         THEN LET r == EncNode(h, x.id, [st EXCEPT !.active = @ \cup {x.id}], batch) IN [r EXCEPT !.active = @ \ {x.id}]
     ELSE EncNode(h, x.id, st, batch)
 
-Enc(h, batch) ==
-    LET st == EncItem(h, h.root, [ops |-> <<>>, memo |-> [j \in {} |-> 0], n |-> 0], batch) IN
-    Append(st.ops, [op |-> "STOP"])
+EncState(h, batch) == EncItem(h, h.root, [ops |-> <<>>, memo |-> [j \in {} |-> 0], n |-> 0, active |-> {}, div |-> FALSE], batch)
+Enc(h, batch) == Append(EncState(h, batch).ops, [op |-> "STOP"])
+\* the encoder terminates on h (it does not recurse without bound)
+EncTerminates(h, batch) == ~EncState(h, batch).div
 
 --------------------------------------------------------------------------
 \* DECODER (virtual machine)
